@@ -86,7 +86,26 @@ func (m *C11) OnStep(_ explore.Ghost, st *explore.Step) []V {
 	case *baskettypes.MsgCreate:
 		if r, ok := st.Res.Resp.(*baskettypes.MsgCreateResponse); ok && st.Res.OK {
 			m.inc("baskets_created")
-			return m.stored(st, r.BasketDenom, msg.DateCriteria)
+			out := m.stored(st, r.BasketDenom, msg.DateCriteria)
+			// the other admission inputs of the new basket are the requested ones too
+			if b := st.Post.BasketByDenom(r.BasketDenom); b != nil {
+				want := map[string]bool{}
+				for _, c := range msg.AllowedClasses {
+					want[c] = true
+				}
+				got := map[string]bool{}
+				for _, bc := range st.Post.BasketClasses {
+					if bc.BasketId == b.Id {
+						got[bc.ClassId] = true
+					}
+				}
+				if fmt.Sprint(want) != fmt.Sprint(got) || b.CreditTypeAbbrev != msg.CreditTypeAbbrev || b.DisableAutoRetire != msg.DisableAutoRetire {
+					out = append(out, V{Kind: "C11/stored-basket-differs-from-request",
+						Detail: fmt.Sprintf("%s: requested classes %v type %s disable_auto_retire=%v, stored classes %v type %s disable_auto_retire=%v",
+							st.Act.Label, want, msg.CreditTypeAbbrev, msg.DisableAutoRetire, got, b.CreditTypeAbbrev, b.DisableAutoRetire)})
+				}
+			}
+			return out
 		}
 	}
 	return nil
